@@ -2,6 +2,7 @@ package main
 
 import (
 	"fmt"
+	"go/constant"
 	"go/token"
 	"go/types"
 	"os"
@@ -70,6 +71,9 @@ func c03Loop(c *Ctx, r *Report) {
 			continue
 		}
 		for li, l := range e.loops[fn] {
+			if rawReadLoop(l) {
+				continue // the retry loop around the raw read, wherever it stands: a C03.BOUND obligation
+			}
 			n++
 			key := fmt.Sprintf("%s: loop %d (%s)", fnName(fn), li+1, loopDesc(c, l))
 			fd := e.findings[fmt.Sprintf("%s#%d", fnName(fn), li)]
@@ -469,6 +473,8 @@ func c03Bound(c *Ctx, r *Report) {
 					r.add("C03.BOUND", key, pos, Discharged, "counted loop: "+why)
 				} else if why, ok := descentLoop(l); ok {
 					r.add("C03.BOUND", key, pos, Discharged, "descent loop: "+why)
+				} else if ptrPeelLoop(l) {
+					r.add("C03.BOUND", key, pos, Discharged, "for t.Kind() == reflect.Ptr { t = t.Elem() }: a type has finitely many pointer levels")
 				} else if why, ok := reviewedLoops[fnName(fn)]; ok || rawReadLoop(l) {
 					if rawReadLoop(l) {
 						why = reviewedLoops["(*parser).readByte"]
@@ -505,6 +511,54 @@ func c03Bound(c *Ctx, r *Report) {
 		}
 	}
 	r.floor("C03.BOUND", "loops outside the scanners", n, 60)
+}
+
+// ptrPeelLoop: the loop is left unless Kind() of a reflect.Type carried round the loop is reflect.Ptr, and the value
+// carried round is Elem() of it: every way round takes one pointer level off a type.
+func ptrPeelLoop(l *loopInfo) bool {
+	if len(l.head.Instrs) == 0 {
+		return false
+	}
+	ifi, ok := l.head.Instrs[len(l.head.Instrs)-1].(*ssa.If)
+	if !ok {
+		return false
+	}
+	g := normGuard(guard{ifi.Cond, true, ifi})
+	bo, ok := g.cond.(*ssa.BinOp)
+	if !ok || (bo.Op != token.EQL && bo.Op != token.NEQ) {
+		return false
+	}
+	var kindCall *ssa.Call
+	for _, op := range []ssa.Value{bo.X, bo.Y} {
+		if cl, ok := op.(*ssa.Call); ok && cl.Call.IsInvoke() && cl.Call.Method.Name() == "Kind" && isReflectNamed(cl.Call.Value.Type(), "Type") {
+			kindCall = cl
+		}
+		if k, ok := op.(*ssa.Const); ok && (k.Value == nil || k.Value.Kind() != constant.Int || k.Int64() != 22) {
+			return false
+		}
+	}
+	if kindCall == nil {
+		return false
+	}
+	phi, ok := kindCall.Call.Value.(*ssa.Phi)
+	if !ok || phi.Block() != l.head {
+		return false
+	}
+	// the successor taken when the kind is Ptr stays in the loop; every value carried round is Elem() of the phi
+	for i, pred := range l.head.Preds {
+		if !l.body[pred] {
+			continue
+		}
+		cl, ok := phi.Edges[i].(*ssa.Call)
+		if !ok || !cl.Call.IsInvoke() || cl.Call.Method.Name() != "Elem" || cl.Call.Value != ssa.Value(phi) {
+			return false
+		}
+	}
+	stay := l.head.Succs[0]
+	if (bo.Op == token.NEQ) == g.val {
+		stay = l.head.Succs[1]
+	}
+	return l.body[stay]
 }
 
 func parentOf(f *ssa.Function) *ssa.Function {
@@ -709,6 +763,21 @@ func c03Assert(c *Ctx, r *Report) {
 				for _, f := range assertFacts(b) {
 					if f.holds && sameVal(f.x, ta.X) && types.Identical(f.t, ta.AssertedType) {
 						safe, why = true, "dominated by a successful checked assertion"
+					}
+				}
+				// inside a case of a type switch on the operand, asserted to an interface every type of the case has
+				if !safe {
+					if it, isI := ta.AssertedType.Underlying().(*types.Interface); isI {
+						cts := caseTypesOf(b, func(v ssa.Value) bool { return sameVal(v, stripIface(ta.X)) || sameVal(v, ta.X) })
+						all := len(cts) > 0
+						for _, ct := range cts {
+							if !types.Implements(ct, it) {
+								all = false
+							}
+						}
+						if all {
+							safe, why = true, "inside a case of a type switch on the operand, every type of the case implements the asserted interface"
+						}
 					}
 				}
 				// phi of constructor results
@@ -1181,7 +1250,7 @@ func c03Depth(c *Ctx, r *Report) {
 			ok := hasGuard(ci.Block(), func(g guard) bool { return g.at == guardIf && !g.val })
 			r.check("C03.DEPTH", fmt.Sprintf("%s: descent #%d (%s) happens only with depth > 0", fnName(fn), n, fnName(cal)), ci.Pos(), ok, "the descent is not dominated by the depth guard")
 		}
-		r.floor("C03.DEPTH", "descents in the type dispatcher", n, 4)
+		r.floor("C03.DEPTH", "descents in the type dispatcher", n, 2)
 	}
 	// entry points pass MaxResolveDepth or a constant
 	k := 0
@@ -1202,13 +1271,21 @@ func c03Depth(c *Ctx, r *Report) {
 					continue
 				}
 				k++
-				okArg := false
-				if _, isC := arg.(*ssa.Const); isC {
-					okArg = true
-				}
-				if u, ok := arg.(*ssa.UnOp); ok && u.Op == token.MUL {
-					if g, ok := u.X.(*ssa.Global); ok && g.Name() == "MaxResolveDepth" {
-						okArg = true
+				// a constant or MaxResolveDepth, or a choice between such values made before the call
+				leaves, _ := phiLeaves(arg)
+				okArg := len(leaves) > 0
+				for _, lf := range leaves {
+					okLeaf := false
+					if _, isC := lf.val.(*ssa.Const); isC {
+						okLeaf = true
+					}
+					if u, ok := lf.val.(*ssa.UnOp); ok && u.Op == token.MUL {
+						if g, ok := u.X.(*ssa.Global); ok && g.Name() == "MaxResolveDepth" {
+							okLeaf = true
+						}
+					}
+					if !okLeaf {
+						okArg = false
 					}
 				}
 				r.check("C03.DEPTH", fmt.Sprintf("%s: resolution is entered with a bounded depth (#%d)", fnName(efn), k), ci.Pos(), okArg, "the depth argument is neither MaxResolveDepth nor a constant")
